@@ -118,6 +118,9 @@ class Job:
                 continue
             if "unwinding assertion" in desc:
                 unwind_fail.append(p.get("property"))
+                if "unwind_cex" not in res:
+                    res["unwind_cex"] = {"property": p.get("property"), "description": desc, "loc": _loc(p),
+                                         "inputs": core.trace_inputs(p)}
                 continue
             mine = desc.startswith(self.prop + ":")
             mem = self.memchecks and not re.match(r"C\d\d:", desc) and not desc.startswith("WITNESS")
